@@ -9,11 +9,11 @@ package shapes
 var structish = []string{"struct", "pstruct", "sstruct", "spstruct"}
 
 // containers allowed as a struct field / as an untagged-map value / at top level
-var asField = []string{"struct", "pstruct", "sstruct", "spstruct", "map", "mapss", "tmap", "tstruct", "stmap"}
+var asField = []string{"struct", "pstruct", "sstruct", "spstruct", "map", "mapss", "tmap", "tstruct", "stmap", "sptmap"}
 var asMapValue = []string{"struct", "pstruct", "sstruct", "spstruct", "map"}
-var topLevel = []string{"pstruct", "sstruct", "spstruct", "map", "tmap", "tstruct", "stmap", "struct"}
+var topLevel = []string{"pstruct", "sstruct", "spstruct", "map", "tmap", "tstruct", "stmap", "sptmap", "struct"}
 
-var taggableKeys = []string{"pub_k", "sec_k", "sen_k", "sen-h_k", "sec-e_k", "sen-r_k", "unt_k"}
+var taggableKeys = []string{"pub_k", "sec_k", "sen_k", "sen-h_k", "sec-e_k", "sen-r_k", "unt_k", "unk_k", "mix_k"}
 
 func isStructish(k string) bool {
 	for _, s := range structish {
@@ -64,7 +64,7 @@ func leavesFor(k string, full bool) []*Node {
 		}
 	case k == "mapss":
 		out = append(out, &Node{K: KStr, Name: "x"})
-	case k == "tmap", k == "tstruct", k == "stmap":
+	case k == "tmap", k == "tstruct", k == "stmap", k == "sptmap":
 		for _, key := range taggableKeys {
 			out = append(out, &Node{K: KStr, Name: key})
 			if full {
@@ -145,7 +145,7 @@ func Enumerate(maxDepth int, fullLeavesDepth int, emit func(*Node)) {
 					node = wrap(chain[lvl], node, sib, v.after)
 					if lvl > 0 {
 						node.Name = childName(chain[lvl-1])
-						if chain[lvl-1] == "tmap" || chain[lvl-1] == "tstruct" || chain[lvl-1] == "stmap" {
+						if chain[lvl-1] == "tmap" || chain[lvl-1] == "tstruct" || chain[lvl-1] == "stmap" || chain[lvl-1] == "sptmap" {
 							node.Name = "unt_k"
 						}
 					}
